@@ -19,6 +19,19 @@ mod helpers {
     pub fn fh<T: Hash + ?Sized, H: Hasher>(a: &T, h: &mut H) { a.hash(h) }
     pub fn ksz<T: ?Sized>(_: &T) -> u8 { 0 }
     pub const K: i8 = 7;
+    pub trait Mk { fn mk() -> Self; }
+    impl Mk for i8 { fn mk() -> Self { 5 } }
+    /// implements every derivable trait for one value of its parameter only
+    pub struct WN<const N: usize>;
+    impl Clone for WN<3> { fn clone(&self) -> Self { WN } }
+    impl Copy for WN<3> {}
+    impl ::core::fmt::Debug for WN<3> { fn fmt(&self, f: &mut ::core::fmt::Formatter) -> ::core::fmt::Result { f.write_str("WN") } }
+    impl Default for WN<3> { fn default() -> Self { WN } }
+    impl PartialEq for WN<3> { fn eq(&self, _: &Self) -> bool { true } }
+    impl Eq for WN<3> {}
+    impl PartialOrd for WN<3> { fn partial_cmp(&self, _: &Self) -> Option<Ordering> { Some(Ordering::Equal) } }
+    impl Ord for WN<3> { fn cmp(&self, _: &Self) -> Ordering { Ordering::Equal } }
+    impl Hash for WN<3> { fn hash<H: Hasher>(&self, _: &mut H) {} }
 }
 '''
 
@@ -141,6 +154,10 @@ def gen_item(rng, names=None, want_enum=None, allow_attrs=True, plain=False, abs
             c += [f'{T}::Item', f'{T}::Item', f'{OPT}<{T}::Item>', f'<{T} as helpers::Src>::Item', f'({T}::Item, i8)']
         if has_N and not dflt:
             c += [f'[{T}; {N}]', f'[i8; {N}]']
+        if has_N:
+            # types that mention only the const parameter and implement the traits for some of its values only:
+            # the generated impl needs the `FieldType: Trait` bound
+            c += [f'helpers::WN<{N}>', f'helpers::WN<{N}>', f'[i8; {N}]']
         if has_lt and not dflt:
             c += [f"&{LT} {T}", f"&{LT} str"]
         return c
@@ -153,7 +170,7 @@ def gen_item(rng, names=None, want_enum=None, allow_attrs=True, plain=False, abs
         if not allow_attrs or plain:
             return ''
         out = []
-        generic = has_T and (T in ty.replace('helpers::Tr', '') or (has_U and U in ty))
+        generic = (has_T and (T in ty.replace('helpers::Tr', '') or (has_U and U in ty))) or (has_N and 'WN<' in ty)
         if cmp_set or 'Hash' in traits:
             r = rng.random()
             if r < 0.10:
@@ -183,6 +200,12 @@ def gen_item(rng, names=None, want_enum=None, allow_attrs=True, plain=False, abs
             out.append(rng.choice(['#[default(3)]', '#[default(helpers::K)]', '#[default(-1)]', '#[default(_)]', '#[default]']))
         if dflt and rng.random() < 0.2 and ty == STRING:
             out.append('#[default("s")]')
+        if dflt and has_T and ty == T and rng.random() < 0.3:
+            # an explicit value whose expression needs a bound that only the field-level `bound(..)` supplies
+            if rng.random() < 0.5:
+                out.append(f'#[default(<{T} as helpers::Mk>::mk(), bound({T}: helpers::Mk))]')
+            else:
+                out.append(f'#[derive_ex(Default(bound({T}: helpers::Mk)))] #[default(<{T} as helpers::Mk>::mk())]')
         return ' '.join(out) + (' ' if out else '')
 
     def fields(kind, nf, base):
@@ -283,10 +306,32 @@ mod shadow {
 '''
 
 
+# a trait in scope at the use site that offers, for every type, methods named like the ones the generated code calls:
+# any call written in method syntax (`x.clone()`, `(e).into()`) would become ambiguous or be captured
+HIJACK = '''
+pub trait Hijack {
+    fn clone(&self) -> ! { loop {} } fn clone_from(&mut self, _: &Self) -> ! { loop {} } fn into<Z>(self) -> ! where Self: Sized { loop {} }
+    fn eq(&self, _: &Self) -> ! { loop {} } fn ne(&self, _: &Self) -> ! { loop {} } fn partial_cmp(&self, _: &Self) -> ! { loop {} }
+    fn cmp(&self, _: &Self) -> ! { loop {} } fn hash<Z>(&self, _: &mut Z) -> ! { loop {} } fn fmt(&self, _: &mut ::core::fmt::Formatter) -> ! { loop {} }
+    fn default() -> ! where Self: Sized { loop {} } fn deref(&self) -> ! { loop {} } fn deref_mut(&mut self) -> ! { loop {} }
+    fn add<Z>(self, _: Z) -> ! where Self: Sized { loop {} } fn sub<Z>(self, _: Z) -> ! where Self: Sized { loop {} }
+    fn mul<Z>(self, _: Z) -> ! where Self: Sized { loop {} } fn div<Z>(self, _: Z) -> ! where Self: Sized { loop {} }
+    fn rem<Z>(self, _: Z) -> ! where Self: Sized { loop {} } fn neg(self) -> ! where Self: Sized { loop {} } fn not(self) -> ! where Self: Sized { loop {} }
+    fn bitand<Z>(self, _: Z) -> ! where Self: Sized { loop {} } fn bitor<Z>(self, _: Z) -> ! where Self: Sized { loop {} }
+    fn bitxor<Z>(self, _: Z) -> ! where Self: Sized { loop {} } fn shl<Z>(self, _: Z) -> ! where Self: Sized { loop {} }
+    fn shr<Z>(self, _: Z) -> ! where Self: Sized { loop {} } fn add_assign<Z>(&mut self, _: Z) -> ! { loop {} }
+    fn as_ref(&self) -> ! { loop {} } fn borrow(&self) -> ! { loop {} } fn to_owned(&self) -> ! { loop {} } fn reverse(self) -> ! where Self: Sized { loop {} }
+    fn then_with<Z>(self, _: Z) -> ! where Self: Sized { loop {} } fn map<Z>(self, _: Z) -> ! where Self: Sized { loop {} }
+    fn is_eq(&self) -> ! { loop {} } fn unwrap(self) -> ! where Self: Sized { loop {} }
+}
+impl<T: ?Sized> Hijack for T {}
+'''
+
+
 def gen_c13_case(seed, idx):
-    """a well-typed item (C20 grammar) with user-chosen names drawn from a hostile dictionary, in one of three scopes"""
+    """a well-typed item (C20 grammar) with user-chosen names drawn from a hostile dictionary, in one of four scopes"""
     rng = random.Random(seed * 7000003 + idx)
-    scope = ['plain', 'shadow', 'no_std'][idx % 3]
+    scope = ['plain', 'shadow', 'no_std', 'hijack'][idx % 4]
     for _ in range(60):
         fields = rng.sample(HOSTILE_FIELDS, 4)
         variants = rng.sample(HOSTILE_VARIANTS, 4)
@@ -309,7 +354,11 @@ def gen_c13_case(seed, idx):
             if '::std::' in src:
                 continue
             pre = '#![no_std]\n' + PRELUDE
-        if scope == 'shadow':
+        if scope == 'hijack':
+            # `by` / `key` helper functions of the prelude are written in method syntax themselves: keep them out of the scope
+            body = f'mod case {{\n#[allow(unused_imports)] use super::Hijack;\nuse super::helpers;\nuse derive_ex::{{derive_ex, Ex}};\n{src}\n}}\n'
+            full = pre + HIJACK + body
+        elif scope == 'shadow':
             body = f'mod case {{\n#[allow(unused_imports)] use super::shadow::*;\nuse super::helpers;\nuse derive_ex::{{derive_ex, Ex}};\n{src}\n}}\n'
             full = pre + SHADOW + body
         else:
